@@ -29,6 +29,7 @@ func genConfig(r *core.Rand, p *core.Plan, types []int, collide bool) (n1, n2, n
 	p.Cfg["poison"] = int64(r.Intn(256))
 	p.Cfg["segmode"] = int64(r.Intn(4))
 	p.Cfg["jitter"] = int64(r.Pick([]int{0, 1000, 3_000_000, 40_000_000}))
+	p.Cfg["reuse"] = int64(r.Intn(2))    // OBJREUSE: each issuer keeps one request object and decodes every arriving message into it
 	p.Cfg["bufreuse"] = int64(r.Intn(2)) // REUSE: argument buffers return to a pool, are scrambled and reused
 	p.Cfg["scramble"] = int64(r.Intn(256))
 	has := map[int]bool{}
@@ -176,6 +177,7 @@ func lenClass(n int) string {
 func (c c01) Execute(p *core.Plan) *core.Result {
 	res := core.NewResult()
 	w := BuildWorld(p, res, false)
+	w.ReuseDecoder = p.C("reuse", 0) == 1
 	world.NewPlanAdversary(w)
 	w.Observers = append(w.Observers, func(o *world.Outcome) {
 		res.Evals++
